@@ -1,4 +1,5 @@
 import Rie.Proofs.Sys
+import Rie.Proofs.SysAgents
 import Rie.Props.Tables
 
 /-!
@@ -100,6 +101,27 @@ theorem C13_limit_and_closed (s : State) (name : String) (es : List Ev)
     simp [agRegister, hnew, hev, h, this, hd]
 
 theorem C13_limit_is_ten : maxAgents = Rie.Gen.maxAgentsAllowed ∧ maxAgents = 10 := ⟨maxAgents_gen, rfl⟩
+
+/-- **Names unique, at most ten — whole runs.** From any initial configuration without agents, after
+    any sequence of ops (registrations of any names and event sets, with any malformed variants; next /
+    error reports; invocations; exits; resets; shutdowns; timers) under any scheduler choices: the
+    names of the agents that exist — external and internal together — are pairwise distinct, and at
+    most ten of them were not refused at launch (an eleventh extension *file* is launched, marked
+    `LaunchError` and fails the init: that is the code, `rapid/handlers.go` checks the limit after
+    `CreateExternalAgent`). Invariant `Rie.Sys.AInv` proved for every model function
+    (`Rie/Proofs/SysAgents.lean`); the table fact used is that no legal call other than `launchError`
+    starts from or leads to `LaunchError` (`agProg_noLE`). -/
+theorem C13_unique_and_bounded (s0 : State) (h0 : s0.agents = []) (ops : List (Nat × Op)) :
+    let s := (run s0 [] ops).1
+    (s.agents.map (·.name)).Nodup ∧ (s.agents.filter (fun a => a.st != .launchError)).length ≤ 10 := by
+  have i : AInv (run s0 [] ops).1 := ainv_run s0 [] ops (by show AInvL s0.agents; rw [h0]; exact ⟨by simp, by simp⟩)
+  exact ⟨i.nodup, i.bound⟩
+
+-- non-vacuity: eleven extension files: ten are launched as usual, the eleventh is refused at launch
+example :
+    let s0 : State := { extFiles := ["a", "b", "c", "d", "e", "f", "g", "h", "i", "j", "k"] }
+    let s := (run s0 [] [(0, .init)]).1
+    s.agents.length = 11 ∧ (s.agents.filter (fun a => a.st != .launchError)).length = 10 := by decide +kernel
 
 -- non-vacuity: a registration after the first delivery is refused and leaves the state as it was
 example :
